@@ -31,12 +31,16 @@ class C08Filter:
         self._sleep(uid, "pre")
         if uid in self.raising:
             import builtins
+            if self.exc_type == "BigValueError": raise ValueError(f"boom-{uid}|" + "x" * 300000)    # larger than a pipe buffer
+            if self.exc_type == "TwoArgError": raise TwoArgError("boom", uid)                        # cannot be rebuilt from its args
             raise (getattr(builtins, self.exc_type, None) or InjectedFailure)(f"boom-{uid}")
+        none_out = uid in getattr(self, "none_out", ())
         if self.mode == "value":
-            return (uid, 0, pid)
-        return self._gen(uid, pid)
+            return None if none_out else (uid, 0, pid)
+        return self._gen(uid, pid, none_out)
 
-    def _gen(self, uid, pid):
+    def _gen(self, uid, pid, none_out=False):
+        if none_out: yield None                                   # None is a legal output
         for j in range(self.kmap.get(uid, self.kmap.get(str(uid), 1))):
             yield (uid, j, pid)
         self._sleep(uid, "post")
@@ -86,6 +90,10 @@ def __getattr__(name):
 
 # --------------------------------------------------------------------------------------------- experiments (C01/C02/C03)
 import hashlib as _hashlib
+
+class TwoArgError(Exception):
+    """an exception class whose __init__ has its own signature: pickle cannot rebuild it from self.args"""
+    def __init__(self, a, b): super().__init__(f"{a}-{b}")
 
 class InjectedFailure(Exception):
     """raised by the fault-injecting components below"""
